@@ -25,6 +25,19 @@ def main():
     except ValueError:
         seed = 0
     pid = a.pid.upper()
+    # a check that hangs is a broken check, not a verdict: give up with exit 2 after a generous wall-clock limit
+    import faulthandler
+    import signal
+
+    limit = int(os.environ.get("VERIF_TIMEOUT", "3600" if a.tier == "quick" else "28800"))
+
+    def _giveup(signum, frame):
+        print(f"harness error: {pid} {a.tier} exceeded {limit}s wall clock; giving up", file=sys.stderr)
+        faulthandler.dump_traceback(file=sys.stderr)
+        os._exit(2)
+
+    signal.signal(signal.SIGALRM, _giveup)
+    signal.alarm(limit)
     try:
         import bellows
 
@@ -67,4 +80,7 @@ def main():
 
 
 if __name__ == "__main__":
-    sys.exit(main())
+    rc = main()
+    sys.stdout.flush()
+    sys.stderr.flush()
+    os._exit(rc)  # never wait for threads a broken tree may have left running
